@@ -4,6 +4,9 @@ use std::cell::UnsafeCell;
 use std::fmt;
 use std::ops::{Deref, DerefMut};
 use std::panic::{RefUnwindSafe, UnwindSafe};
+#[cfg(may_verif)]
+use crate::verif::atomic::{fence, AtomicUsize, Ordering};
+#[cfg(not(may_verif))]
 use std::sync::atomic::{fence, AtomicUsize, Ordering};
 use std::sync::Arc;
 use std::sync::{LockResult, TryLockError, TryLockResult};
